@@ -151,6 +151,10 @@ impl Response {
     pub fn serialize<const N: usize>(&self, buffer: &mut Vec<u8, N>) {
         buffer.resize_default(buffer.capacity()).ok();
         let (status, data) = buffer.split_first_mut().unwrap();
+        // With a one-byte buffer there is no room to encode even the empty map (0xA0) that is
+        // collapsed to an empty body below, so use a byte of scratch space in that case.
+        let mut scratch = [0u8; 1];
+        let data: &mut [u8] = if data.is_empty() { &mut scratch } else { data };
         use cbor_smol::cbor_serialize;
         use Response::*;
         let outcome = match self {
